@@ -81,7 +81,7 @@ class IntersectionDomain(Domain):
 
     def _cut_points(self, points, params=Points.empty()):
         # check which points are in domain b
-        n = len(params)
+        n = len(points)
         _, repeated_params = self._repeat_params(n, params)
         in_b = self.domain_b._contains(points=points, params=repeated_params)
         index = torch.where(in_b)[0]
